@@ -168,7 +168,10 @@ def corrupt_text(ch: Choices, text: str) -> Tuple[str, str]:
 
 
 # --- instrumented middlewares / error handlers --------------------------------------------------------------------
-MW_KINDS = ['pass', 'short', 'rewrite_req', 'rewrite_resp', 'withhold']
+MW_KINDS = ['pass', 'short', 'rewrite_req', 'rewrite_resp', 'withhold', 'deadline']
+# a 'deadline' middleware (asynchronous chains) gives the rest of the chain a time budget and answers itself when the
+# budget runs out; inner deadlines are shorter than outer ones, and both are far above any ordinary pause
+DEADLINE_BASE, DEADLINE_STEP, HANG = 100000.0, 10000.0, 10000000.0
 
 
 def _tok_of(request: Any) -> Any:
@@ -245,6 +248,13 @@ def make_middleware(w: World, node: str, idx: int, kind: str, is_async: bool, pl
             resp = _short_reply(idx, request)
         elif kind == 'rewrite_req' and request.method == REWRITE_TRIGGER and tok is not None:
             resp = await handler(_rewritten(idx, request), context)
+        elif kind == 'deadline':
+            try:
+                resp = await asyncio.wait_for(handler(request, context), DEADLINE_BASE - DEADLINE_STEP * idx)
+            except asyncio.TimeoutError:
+                w.rec(node, 'mw.deadline', mw=idx, tok=tok)
+                w.fault('deadline_expired', mw=idx)
+                resp = UNSET if request.id is None else pjrpc.Response(id=request.id, result=f'deadline-{idx}')
         else:
             resp = await handler(request, context)
         for d in w.plan.get(('mw.post', idx, tok), ()):
@@ -514,6 +524,30 @@ def plan_pauses(w: World, cfg: Dict[str, Any], n_elements: int, rate: int = 2, t
         for hs in cfg['handlers'].values():
             for hid, _ in hs:
                 w.plan[('eh', hid, tok)] = [ch.choice(gen.PAUSES, 'pause.d') for _ in range(ch.draw(rate, 'pause.eh'))]
+
+
+def plan_hangs(w: World, cfg: Dict[str, Any], doc: Any, rate: Tuple[int, int] = (1, 3)) -> List[str]:
+    """With a deadline middleware in an asynchronous chain: let some elements' methods hang (a pause far beyond every
+    deadline).  Returns the tokens chosen; only coroutine methods actually suspend."""
+    if not cfg['async'] or 'deadline' not in cfg['middlewares']:
+        return []
+    out = []
+    for el in (doc if isinstance(doc, list) else [doc]):
+        if not isinstance(el, dict):
+            continue
+        tok = C_tok(el.get('params', []))
+        if tok is not None and w.ch.flag(rate[0], rate[1], 'hang'):
+            w.plan[('method', tok)] = [HANG]
+            out.append(tok)
+    return out
+
+
+def C_tok(params: Any) -> Optional[str]:
+    if isinstance(params, list) and params and isinstance(params[0], str):
+        return params[0]
+    if isinstance(params, dict) and isinstance(params.get('tok'), str):
+        return params['tok']
+    return None
 
 
 def judge_delivery(w: World, prop: str, sut: 'ServerUnderTest', text: str, checks: Tuple[str, ...],
